@@ -180,7 +180,7 @@ func (g *gen) randomPath(allowWild bool) string {
 		if strings.Count(s, "keyvalue") > 1 {
 			continue // known finding pattern, see DESIGN 6.1
 		}
-		if _, err := path.Parse(s); err == nil {
+		if parses(s) {
 			return s
 		}
 	}
@@ -487,6 +487,9 @@ func Generate(seed uint64, opt GenOptions) *Scenario {
 			if op.IsExec() {
 				if len(sc.Vars) > 0 && g.chance(0.7) {
 					op.Vars = g.r.IntN(len(sc.Vars))
+					if len(sc.Vars) > 1 && g.chance(0.15) {
+						op.Vars2 = 1 + g.r.IntN(len(sc.Vars))
+					}
 				}
 				op.Silent = g.chance(silentShare)
 				op.TZ = g.chance(tzShare)
@@ -677,6 +680,11 @@ func TwinScenario(idx int, mode string) *Scenario {
 			{"string", "exists", "parse", "scan", "query", "marshal"},
 		}
 	}
+	if d.Group == "verydeep" {
+		// Fan-out: eight callers deep inside the same document at once.
+		l := []string{"query", "exists", "first"}
+		lists = [][]string{l, l, l, l, l, l, l, l}
+	}
 	for _, l := range lists {
 		var ts TaskSpec
 		for _, k := range l {
@@ -684,7 +692,18 @@ func TwinScenario(idx int, mode string) *Scenario {
 		}
 		sc.Tasks = append(sc.Tasks, ts)
 	}
-	n := 3
+	if variant%4 == 3 {
+		// Two WithVars options on one call (the second wins).
+		sc.Vars = append(sc.Vars, DocSpec{JSON: poolVars[2]})
+		for ti := range sc.Tasks {
+			for oi := range sc.Tasks[ti].Ops {
+				if o := &sc.Tasks[ti].Ops[oi]; o.IsExec() && (ti+oi)%2 == 0 {
+					o.Vars, o.Vars2 = 0, 2
+				}
+			}
+		}
+	}
+	n := len(sc.Tasks)
 	if mode == "interleave" {
 		// Round-robin one step at a time: maximal interleaving of the
 		// same path's executions.
@@ -693,8 +712,26 @@ func TwinScenario(idx int, mode string) *Scenario {
 		}
 		return sc
 	}
+	all := make([]int, n)
+	for i := range all {
+		all[i] = i
+	}
 	for w := 0; w < 600; w++ {
-		sc.Schedule = append(sc.Schedule, Window{Tasks: []int{0, 1, 2}})
+		sc.Schedule = append(sc.Schedule, Window{Tasks: all})
 	}
 	return sc
+}
+
+// parses reports whether path.Parse accepts text. Parse panics on a few
+// inputs (seen: "- -1.5", strconv.ParseFloat in ast.NewNumeric; that is
+// C04's subject, not this simulator's), so the generator treats a panic as
+// a rejection.
+func parses(text string) (ok bool) {
+	defer func() {
+		if recover() != nil {
+			ok = false
+		}
+	}()
+	_, err := path.Parse(text)
+	return err == nil
 }
